@@ -45,3 +45,7 @@ for n, r in res.items():
 open(os.path.join(ROOT, "seeded", "RESULTS.md"), "w").write("\n".join(lines) + "\n")
 c = sum(1 for r in res.values() if r["outcome"] == "CAUGHT")
 print(f"{c} of {len(res)} caught")
+# evidence files were overwritten by runs on modified trees: rewrite them from the unchanged tree
+for f in sorted(glob.glob(os.path.join(ROOT, "props", "C*.json"))):
+    pid = os.path.basename(f)[:-5]
+    subprocess.run([os.path.join(ROOT, "check"), pid], capture_output=True, text=True, cwd=ROOT)
